@@ -382,13 +382,13 @@ class MPNLRICollection:
             payload = header
 
             for packed_nlri in packed_nlris:
+                if self._attr_len(header_length + len(packed_nlri)) > maximum:
+                    # not even this one NLRI fits next to the attributes, alone in its attribute: as for IPv4
+                    # NLRI, say so and send nothing for it (whether or not shorter ones were packed before it)
+                    log.critical(lazymsg('update.pack.error reason=attributes_too_large'), 'parser')
+                    continue
                 # Check if adding this NLRI would exceed maximum
                 if self._attr_len(len(payload) + len(packed_nlri)) > maximum:
-                    if len(payload) == header_length:
-                        # not even this one NLRI fits next to the attributes: as for IPv4 NLRI, say so and
-                        # send nothing for it, rather than raise in the middle of the sender loop
-                        log.critical(lazymsg('update.pack.error reason=attributes_too_large'), 'parser')
-                        continue
                     # Yield current payload and start new one
                     yield self._attribute_header(self._CODE_MP_REACH_NLRI, len(payload)) + payload
                     payload = header + packed_nlri
@@ -433,11 +433,11 @@ class MPNLRICollection:
         payload = header
 
         for packed_nlri in packed_nlris:
+            if self._attr_len(header_length + len(packed_nlri)) > maximum:
+                log.critical(lazymsg('update.pack.error reason=attributes_too_large'), 'parser')
+                continue
             # Check if adding this NLRI would exceed maximum
             if self._attr_len(len(payload) + len(packed_nlri)) > maximum:
-                if len(payload) == header_length:
-                    log.critical(lazymsg('update.pack.error reason=attributes_too_large'), 'parser')
-                    continue
                 # Yield current payload and start new one
                 yield self._attribute_header(self._CODE_MP_UNREACH_NLRI, len(payload)) + payload
                 payload = header + packed_nlri
